@@ -8,6 +8,8 @@
                    fs accts amem news board bans cfgx chats xfers   the effect digest: lists of differences between
                            the snapshots before/after (file root, account files, account manager, news file,
                            board file, ban file, other config files, chat membership, pending transfers)
+                   xfer    how the opened transfer went ("none": not opened)   newdirs / outdirs  folders that appeared /
+                           those of them outside the folder a folder upload names
                    other   transaction types the second client received       selfx  ... the requester, besides its reply
                    closed  the second client's connection was closed           name   whose name the user list shows
      create (C06)  reply, etext, mem / disk = bitmap bytes of the created account in the running manager / in a
@@ -107,18 +109,20 @@ HandleProblems(e, s, mrep, mfx, mnm) ==
               THEN <<P("VIOL", "C05", "no-error-reply-without-privilege", d)>> ELSE <<>>)
        \o (IF none /\ ~(changed \subseteq allowed)
                THEN <<P("VIOL", "C05", "effect-without-privilege", [d EXCEPT !.changed = changed \ allowed])>> ELSE <<>>)
+       \o (IF r.sp = "xfer" /\ e.outdirs # <<>> /\ 5 \notin s.acc     \* a folder appeared and the requester may not create folders
+              THEN <<P("VIOL", "C05", "effect-without-privilege", [d EXCEPT !.changed = {"folder-created"}])>> ELSE <<>>)
        \o (IF none /\ e.nrep > 1 THEN <<P("VIOL", "C05", "several-replies-to-refused-request", d)>> ELSE <<>>)
-       \o (IF all /\ isErr /\ ~refused /\ EffOf(r) # {} /\ r.sp \notin {"occupied", "ghost"} THEN <<P("DRIFT", "C05", "request failed for another reason", d)>> ELSE <<>>)
+       \o (IF all /\ isErr /\ ~refused /\ EffOf(r) # {} /\ r.sp \notin {"occupied", "ghost", "xfer"} THEN <<P("DRIFT", "C05", "request failed for another reason", d)>> ELSE <<>>)
        (* the requester holds the privilege of every reading and the request is well-formed: "with it the request is
           never refused" - a closed connection, no reply, or a reply without the effect is a refusal in all but name.
           (The delayed disconnect is awaited with a bound: its absence alone is timing, hence drift.) *)
-       \o (IF all /\ e.reply = "closed" /\ EffOf(r) # {} /\ r.sp \notin {"occupied", "ghost"}
+       \o (IF all /\ e.reply = "closed" /\ EffOf(r) # {} /\ r.sp \notin {"occupied", "ghost", "xfer"}
                THEN <<P("VIOL", "C05", "permitted-request-not-executed", d)>> ELSE <<>>)
-       \o (IF all /\ e.reply = "closed" /\ ~(EffOf(r) # {} /\ r.sp \notin {"occupied", "ghost"})
+       \o (IF all /\ e.reply = "closed" /\ ~(EffOf(r) # {} /\ r.sp \notin {"occupied", "ghost", "xfer"})
                THEN <<P("DRIFT", "C05", "connection closed instead of a reply", d)>> ELSE <<>>)
-       \o (IF all /\ ~isErr /\ e.reply # "closed" /\ r.sp \notin {"occupied", "ghost"} /\ ~((expect \ {"closed"}) \subseteq changed)
+       \o (IF all /\ ~isErr /\ e.reply # "closed" /\ r.sp \notin {"occupied", "ghost", "xfer"} /\ ~((expect \ {"closed"}) \subseteq changed)
                THEN <<P("VIOL", "C05", "permitted-request-not-executed", [d EXCEPT !.changed = expect \ changed])>> ELSE <<>>)
-       \o (IF all /\ ~isErr /\ e.reply # "closed" /\ r.sp \notin {"occupied", "ghost"} /\ (expect \ {"closed"}) \subseteq changed /\ ~(expect \subseteq changed)
+       \o (IF all /\ ~isErr /\ e.reply # "closed" /\ r.sp \notin {"occupied", "ghost", "xfer"} /\ (expect \ {"closed"}) \subseteq changed /\ ~(expect \subseteq changed)
                THEN <<P("DRIFT", "C05", "expected disconnect not observed within the bound", [d EXCEPT !.changed = expect \ changed])>> ELSE <<>>)
        \o (IF (all /\ mrep # "ok") \/ (none /\ mrep # "refused")
                THEN <<P("DRIFT", "C05", "model and readings disagree", d)>> ELSE <<>>)
